@@ -138,6 +138,14 @@ def check(ctx):
     # the propensity buffer the derivative reads (C01) - re-emitted here
     from . import c01
     c01.reemit(ctx, 'R4.4-rate-laws', 'deterministic', ('compute_propensities',))
-    ctx.floor('R4.4-rate-laws', 40)
+    # ... and a 'general' rate is the compiled expression itself at (state, params, time): not clamped, not rescaled (C02 R2.1-users)
+    from ..core import SubCtx
+    from . import c02
+    sub = SubCtx(ctx)
+    c02.check_users(sub)
+    for rule, key, ok, where, what, detail in sub.got:
+        if rule == 'R2.1-users' and key.startswith('GeneralPropensity'):
+            ctx.ob('R4.4-rate-laws', '%s/%s' % (rule, key), ok, where, what, detail)
+    ctx.floor('R4.4-rate-laws', 43)
     ctx.floor('R4.1-rhs', 1)
     ctx.floor('R4.3-odeint-call', 3)
